@@ -59,7 +59,11 @@ def step (s : M.σ × C.σ) : Op → (M.σ × C.σ) × Out
               -- the cache is filled with the main store's value AND tags (C11-F1 repaired)
               let rt := M.step rm.1 (.getTags k)
               match rt.2 with
-              | .tags ts => ((rt.1, (C.step rc.1 (.put k (some v) ts)).1), .val v)
+              | .tags ts =>
+                  let rp := C.step rc.1 (.put k (some v) ts)
+                  match rp.2 with
+                  | .ok => ((rt.1, rp.1), .val v)
+                  | _ => ((rt.1, rp.1), .invalid)      -- "failed to put the newly retrieved data into the cache store"
               | _ => ((rt.1, rc.1), .invalid)
           | o => ((rm.1, rc.1), o)
       | _ => ((s.1, rc.1), .invalid)
